@@ -69,7 +69,9 @@ Record config := mkCfg {
   canPartial : bool;   (* the cache can erase part of a sequence *)
   canResume : bool;    (* false: a cache front that never lets a sequence be resumed *)
   eosTok : Z;          (* -1: none *)
-  window : option Z    (* Some w: sliding-window cache (kvcache.NewSWACache w); None: plain causal cache *)
+  window : option Z;   (* Some w: sliding-window cache (kvcache.NewSWACache w); None: plain causal cache *)
+  cacheCells : Z       (* number of cells Causal.Init allocated (maxSequences*capacity, or maxSequences*window+maxBatch
+                          for a window below the capacity, rounded up to the cache padding); negative: unbounded *)
 }.
 
 Definition kv_remove_range (cfg : config) (kv : kvcache) (s : nat) (b e : Z) : option kvcache :=
@@ -120,6 +122,14 @@ Definition swa_can_resume (w : Z) (kv : kvcache) (s : nat) (pos : Z) : bool :=
   end.
 Definition can_resume (cfg : config) (kv : kvcache) (s : nat) (pos : Z) : bool :=
   canResume cfg && match window cfg with None => true | Some w => swa_can_resume w kv s pos end.
+
+(** ** capacity: StartForward needs a contiguous block of len(batch) free cells and defragments once before giving up,
+    so (after the window eviction) it fails exactly when the cells still referenced by some sequence plus the batch
+    exceed the allocation: ErrKvCacheFull, which processBatch returns and the run loop panics on *)
+Definition live_cells (kv : kvcache) : Z :=
+  zlen (filter (fun c => match cseqs c with [] => false | _ => true end) kv).
+Definition kv_full (cfg : config) (kv : kvcache) (b : list entry) : bool :=
+  (0 <=? cacheCells cfg) && (cacheCells cfg <? live_cells kv + zlen b).
 
 (** * 3. InputCache *)
 Record slot := mkSlot { s_inputs : list tok; s_inuse : bool; s_last : nat (* 0: zero time *) }.
@@ -322,7 +332,8 @@ Inductive ores :=
 | RNewSeqErr | RBusy | RLoadErr
 | RIdle
 | RStepped (batch : list entry) (chosen : list tok)
-| RFatal | RPanic.
+| RFatal | RPanic
+| RCacheFull.                 (* Forward failed with ErrKvCacheFull: the runner panics *)
 
 Inductive op :=
 | Submit (prompt : list tok) (npredict keep : Z) (stops : list str)
@@ -557,6 +568,7 @@ Section WithNetwork.
           match p_batch p with
           | [] => (mkSt (p_slots p) (p_kv p) (p_seqs p) next (clock st) (nreq st) (p_log p), RStepped [] [])
           | _ =>
+              if kv_full cfg (kv_evict cfg (p_kv p) (p_batch p)) (p_batch p) then (st, RCacheFull) else
               let kv' := kv_forward (kv_evict cfg (p_kv p) (p_batch p)) (p_batch p) in
               match post_all cfg kv' (p_batch p) (p_slots p) (p_seqs p) with
               | None => (st, RPanic)
